@@ -294,6 +294,9 @@ def generate(tier, seed):
     # collision tables (deterministic witnesses of the separator's role)
     yield "table", {"rows": [["AB", "C"], ["A", "BC"], ["AB", "C"]], "cols": ["x", "y"], "kinds": ["str", "str"]}, True
     yield "table", {"rows": [["", "AB"], ["A", "B"], ["AB", ""]], "cols": ["x", "y"], "kinds": ["str", "str"]}, True
+    # cells that differ only by a trailing NUL / control character are different cells
+    yield "table", {"rows": [["AB\x00", "C"], ["AB", "C"], ["AB", "C\x00"], ["AB", "C"], ["AB\n", "C"]], "cols": ["x", "y"], "kinds": ["str", "str"]}, True
+    yield "table", {"rows": [["A\x00"], ["A"], ["A\x00\x00"], ["A\x00"]], "cols": ["x"], "kinds": ["str"]}, True
     yield "table", {"rows": [["A", None], ["A", None], ["A", "B"], [None, "A"]], "cols": ["x", "y"], "kinds": ["str", "str"]}, True
     yield "table", {"rows": [[1, "1"], [1, "1"], [11, ""], [1, "11"]], "cols": ["x", "y"], "kinds": ["num", "str"]}, True
     # one table has a column that is missing everywhere (e.g. beta-only data next to paired data)
